@@ -2,27 +2,22 @@ META = dict(
     engine='seqx',
     technique='explicit-state model checking: BFS over schedule/select/re-schedule histories on the real ap, ip and spq scheduler modules (single stream), reference priority queue, full drain checked in every state',
     level_text='All histories of schedule(ring<=3 over 3 priorities, every ring order, distance 0..2) / select / re-schedule-last-selected(distance 1..2) up to depth 6 (quick) or 8 (thorough; spq 7) are applied to the real module installed by parsec_init through mca_sched, deduplicated by the concrete queue contents; every select - and a complete drain of every reached state - is compared with a reference queue (ap, spq: highest priority first, ties in scheduling order; spq: smallest distance first; ip: lowest priority first).',
-    level_note='Single execution stream, no concurrency (as the property states). Priority values from three value sets (small, mixed sign, INT_MIN/INT_MAX). ip is claimed for distance 0 only: with distance>0 the real ip module appends at the selection end (see NOTES.md).',
+    level_note='Single execution stream, no concurrency (as the property states). Priority values from three value sets (small, mixed sign, INT_MIN/INT_MAX). ip is checked for all distances (the distance>0 defect found by this check was repaired by commit 016fb05; mutants/C09/05 re-introduces it).',
 )
 RULE = ("seqx BFS over operation histories on the real scheduler module, states deduplicated by the walk of the real queue(s) "
         "(priority and tie-rank of every element, existing distance sub-lists) plus the held task; every transition re-plays its "
         "history on a freshly installed scheduler, checks the select oracle and then drains the state completely under the same oracle; "
         "a state is non-trivial when its shortest history has >= 2 operations")
 
-FINDING_ID = 'ip-distance-appends-at-selection-end'
-
 # (module, ringlen, nprio, ndist, depth, priority value set, extra)
 def plan(tier):
     if tier == 'quick':
         return [('ap', 3, 3, 3, 6, 0, []), ('ap', 2, 3, 2, 5, 2, []), ('ap', 3, 4, 2, 5, 1, []),
                 ('spq', 3, 3, 3, 4, 0, []), ('spq', 2, 3, 3, 5, 0, []), ('spq', 2, 2, 3, 6, 1, []), ('spq', 2, 3, 2, 5, 2, []),
-                ('ip', 3, 3, 1, 6, 0, []), ('ip', 2, 3, 1, 5, 2, []), ('ip', 3, 4, 1, 5, 1, [])]
+                ('ip', 3, 3, 3, 6, 0, []), ('ip', 2, 3, 2, 5, 2, []), ('ip', 3, 4, 2, 5, 1, [])]
     return [('ap', 3, 3, 3, 8, 0, []), ('ap', 3, 4, 2, 7, 1, []), ('ap', 3, 3, 3, 7, 2, []),
             ('spq', 3, 3, 3, 5, 0, []), ('spq', 2, 3, 3, 6, 0, []), ('spq', 2, 3, 4, 5, 1, []), ('spq', 3, 2, 3, 5, 2, []), ('spq', 1, 3, 3, 8, 0, []),
-            ('ip', 3, 3, 1, 8, 0, []), ('ip', 3, 4, 1, 7, 1, []), ('ip', 3, 3, 1, 7, 2, [])]
-
-def ip_distance_leg(tier):
-    return ('ip', 2, 3, 2, 4 if tier == 'quick' else 5, 0)
+            ('ip', 3, 3, 3, 8, 0, []), ('ip', 3, 4, 2, 7, 1, []), ('ip', 3, 3, 3, 7, 2, [])]
 
 def build(ctx):
     return ctx.compile('hk-shm', 'prio', ['prio_h.c'], instr=False)
@@ -31,20 +26,11 @@ def args_for(mod, L, P, D, depth, pv, extra):
     return ['--sched', mod, '--ringlen', str(L), '--nprio', str(P), '--ndist', str(D), '--depth', str(depth), '--pv', str(pv)] + list(extra)
 
 def check(ctx):
-    import os, vlib
+    import vlib
     from concurrent.futures import ThreadPoolExecutor
     exe = build(ctx)
     dl = 70 if ctx.tier == 'quick' else 1000
     legs = list(plan(ctx.tier))
-    # ip with distance>0: the unchanged tree violates the property there (NOTES.md, GENUINE DEFECT CANDIDATE).
-    # The leg reports VIOLATION unless the lead has recorded the finding in known_findings.json; then the harness
-    # applies the attribution rule and prints KNOWN-FINDING for attributable inversions only.
-    listed = any(f.get('property') == 'C09' and f.get('id') == FINDING_ID for f in vlib.known_findings())
-    if os.environ.get('VERIF_C09_IPDIST', 'on') != 'off':
-        m, L, P, D, depth, pv = ip_distance_leg(ctx.tier)
-        legs.append((m, L, P, D, depth, pv, ['--known-ip-distance'] if listed else []))
-    else:
-        ctx.notes.append('ip-with-distance leg switched off by VERIF_C09_IPDIST=off')
     def one(leg):
         mod, L, P, D, depth, pv, extra = leg
         return ctx.run_engine(exe, args_for(mod, L, P, D, depth, pv, extra) + ['--outdir', '/verif/out', '--deadline', str(dl)],
@@ -53,7 +39,6 @@ def check(ctx):
         list(ex.map(one, legs))
     ctx.legs.sort(key=lambda l: l.get('leg', ''))
     return ctx.finish(RULE, ["single execution stream, no concurrent activity (as stated by the property)",
-                             "ip with distance>0 is a recorded defect candidate (NOTES.md); it is only tolerated through the attribution rule when listed in known_findings.json",
                              "the module keeps all of its state behind es->scheduler_object (true for ap, ip, spq)"])
 
 def replay(ctx, path, obj):
